@@ -12,10 +12,10 @@ from ..lang import print_module
 
 PROPERTY = "C07"
 TECHNIQUE = "independent binary decoder + WebAssembly 1.0 validator (operand/control stack type checker) on every emitted module"
-LEVEL_TEXT = ("Seeded random modules inside the backend's subset with 1-12 exported functions, 0-8 parameters of mixed int/float type, "
+LEVEL_TEXT = ("Seeded random modules inside the backend's subset with 1-12 functions (all exported, or exported and internal ones mixed), 0-8 parameters of mixed int/float type, "
               "bodies producing many values of alternating types (local-group boundaries), integer constants at every 7-bit LEB "
               "boundary and sign boundary, float constants, void and non-void results, both optimisation settings; plus programs "
-              "outside the subset and whole-language mutants (whatever is emitted there must be valid too). Every emitted byte "
+              "outside the subset and whole-language mutants (whatever is emitted there must be valid too). Every module object is written three times; every emitted byte "
               "string is decoded strictly (preamble, section ids/order/exact sizes, counts, indices) and type-checked.")
 LEVEL_NOTE = ("Trusted: the reference decoder and validator (written from the specification, 0 disagreements with V8 on 158 hand-built "
               "and 84 000 mutated modules in tools/test_wasmref.py). A compilation that raises is a refusal and no C07 event.")
